@@ -9,7 +9,7 @@ ASSUMPTIONS = [
 FEATURES = {
     "C01": dict(stamp=0.35, always=0.15, fail=0.15, ifcreate=0.3, default=0.4),
     "C02": dict(stamp=0.15, always=0.1, fail=0.1, ifcreate=0.4, default=0.5, handedit2=0.08),
-    "C03": dict(stamp=0.8, always=0.25, fail=0.05, ifcreate=0.1, default=0.2),
+    "C03": dict(stamp=0.8, always=0.25, fail=0.05, ifcreate=0.1, default=0.2, editrm=0.07),
     "C05": dict(stamp=0.15, always=0.1, fail=0.55, exitfail=0.2, ifcreate=0.1, default=0.3),
     "C11": dict(stamp=0.2, always=0.1, fail=0.1, ifcreate=0.2, default=0.7, symlink=0.3, handedit2=0.1),
     "C14": dict(stamp=0.2, always=0.5, fail=0.05, ifcreate=0.8, default=0.2),
